@@ -59,6 +59,7 @@ func HandWritten() []*Case {
 		mk("h41", "typed-constants-of-a-standard-library-type", "ph41", "const DefaultTimeout time.Duration = 30 * time.Second\nconst MaxTimeout time.Duration = time.Minute\ntype Job struct {\n\tTimeout time.Duration\n\tName string\n}\n", ""),
 		mk("h42", "all-union-fields-ignored", "ph42", "type Payload interface{ isPayload() }\ntype Text struct{ Value string `json:\"value\"` }\nfunc (Text) isPayload() {}\ntype Number struct{ N int }\nfunc (Number) isPayload() {}\ntype Audit struct {\n\tId int\n\tPayload Payload `json:\"payload\" gomacro:\"ignore\"`\n}\ntype Mixed struct {\n\tA Payload `gomacro:\"ignore\"`\n\tB Payload\n}\ntype Event struct{ P Payload }\n", ""),
 		mk("h43", "null-struct-over-named-time", "ph43", "type MyDate time.Time\nfunc (d MyDate) MarshalJSON() ([]byte, error) { return time.Time(d).MarshalJSON() }\nfunc (d *MyDate) UnmarshalJSON(b []byte) error { return (*time.Time)(d).UnmarshalJSON(b) }\ntype Stamp time.Time\nfunc (d Stamp) MarshalJSON() ([]byte, error) { return time.Time(d).MarshalJSON() }\nfunc (d *Stamp) UnmarshalJSON(b []byte) error { return (*time.Time)(d).UnmarshalJSON(b) }\ntype OptDate struct {\n\tValid bool\n\tDate MyDate\n}\ntype OptStamp struct {\n\tStamp Stamp\n\tValid bool\n}\ntype T struct {\n\tId int64\n\tD OptDate\n\tS OptStamp\n}\n", ""),
+		mk("h46", "omitempty-fields-in-a-json-column", "ph46", "type Mode string\nconst (\n\tAuto Mode = \"auto\"\n\tManual Mode = \"manual\"\n)\ntype Rank int\nconst (\n\tLow Rank = iota + 1\n\tHigh\n)\ntype Settings struct {\n\tName string `json:\"name,omitempty\"`\n\tLevel int `json:\"level,omitempty\"`\n\tRatio float64 `json:\",omitempty\"`\n\tOn bool `json:\"on,omitempty\"`\n\tTags []string `json:\"tags,omitempty\"`\n\tAttrs map[string]int `json:\"attrs,omitempty\"`\n\tMode Mode `json:\"mode\"`\n\tRank Rank\n\tKept string `json:\"kept\"`\n}\ntype T struct {\n\tId int64\n\tS Settings\n\tL []Settings\n\tM map[string]Settings\n}\n", ""),
 		mk("h44", "json-column-of-recursive-named-container", "ph44", "type Tree []Tree\ntype Dict map[string]Dict\ntype T struct {\n\tId int64\n\tTree Tree\n\tDict Dict\n}\n", ""),
 		mk("h45", "enum-constants-over-two-files-with-equal-values", "ph45", "type Color int\nconst (\n\tRed Color = iota\n\tGreen\n\tBlue\n)\ntype Paint struct {\n\tC Color\n\tL Level\n}\n", "const defaultColor = Green\nconst fallbackColor Color = Red\ntype Level uint8\nconst (\n\tLow Level = iota\n\tHigh\n)\nconst levelUnset Level = 255\nconst levelDefault = Low\n"+bigPadding()),
 		withSub(mk("h40", "embedded-non-struct-fields", "ph40", "type Kind int\nconst (\n\tPlain Kind = iota + 1\n\tFancy\n)\ntype Level string\nconst (\n\tLow Level = \"low\"\n\tHigh Level = \"high\"\n)\ntype Tags []string\ntype Shape struct {\n\tKind\n\tLevel\n\tTags\n\tName string\n\tAt geo.Point\n}\n", ""), "geo", "type Geometry interface{ isGeometry() }\ntype Point struct{ X, Y float64 }\nfunc (Point) isGeometry() {}\ntype Line struct{ A, B Point }\nfunc (Line) isGeometry() {}\n"),
